@@ -1132,3 +1132,144 @@ Proof.
   - unfold do_fetch. brk; oev_tac.
   - apply oev_same; reflexivity.
 Qed.
+
+(* the source rows of all bounded requests exist (committed) - and keep existing *)
+Definition Eg (g : gst) : Prop :=
+  forall o a, In o (map w_op (g_ws g)) -> allowance o = Some a -> exists r, vfind (g_vols g) (src_key o) = Some r /\ v_new r = false.
+Lemma step_Eg g w : Eg g -> Eg (step g w).
+Proof.
+  intros H o a Hin Ha. rewrite (step_oev g w) in Hin. destruct (H o a Hin Ha) as [r [Hr Hn]].
+  eapply vevo_exists; [apply step_vev|eauto|auto].
+Qed.
+
+(* a bounded request never holds a "no row" snapshot and is locked throughout its critical section *)
+Definition Pw (ws : list wst) (w : wid) : Prop :=
+  forall s a, nth_error ws w = Some s -> allowance (w_op s) = Some a ->
+              w_norow s <> Some true /\ (crit (w_pc s) = true -> w_locked s = true).
+Definition Pg (g : gst) (w : wid) : Prop := Pw (g_ws g) w.
+
+Lemma Pw_upd ws w f :
+  Pw ws w ->
+  (forall s, nth_error ws w = Some s ->
+     w_op (f s) = w_op s /\
+     (forall a, allowance (w_op s) = Some a -> w_norow s <> Some true -> (crit (w_pc s) = true -> w_locked s = true) ->
+                w_norow (f s) <> Some true /\ (crit (w_pc (f s)) = true -> w_locked (f s) = true))) ->
+  Pw (upd_nth ws w f) w.
+Proof.
+  intros HP Hf s' a Hn Ha. rewrite nth_upd_same in Hn.
+  destruct (nth_error ws w) as [s|] eqn:Hs; simpl in Hn; [|discriminate]. inversion Hn; subst s'. clear Hn.
+  destruct (Hf s eq_refl) as [E1 E2]. rewrite E1 in Ha. destruct (HP s a Hs Ha) as [P1 P2]. apply (E2 a); auto.
+Qed.
+Lemma Pw_clear ws w h : Pw ws w -> Pw (clear_waits ws h) w.
+Proof.
+  intros HP s' a Hn Ha. rewrite nth_clear in Hn. destruct (nth_error ws w) as [s|] eqn:Hs; simpl in Hn; [|discriminate].
+  inversion Hn; subst s'. clear Hn. destruct (owner_is _ _); simpl in *; apply (HP s a); auto.
+Qed.
+Lemma Pg_same g g' w : g_ws g' = g_ws g -> Pg g w -> Pg g' w.
+Proof. unfold Pg. intros ->. auto. Qed.
+Lemma Pg_ev g w w1 l st : Pg g w -> Pg (ev g w1 l st) w.
+Proof. apply Pg_same; reflexivity. Qed.
+Lemma Pg_upd g w f :
+  Pg g w ->
+  (forall s, nth_error (g_ws g) w = Some s ->
+     w_op (f s) = w_op s /\
+     (forall a, allowance (w_op s) = Some a -> w_norow s <> Some true -> (crit (w_pc s) = true -> w_locked s = true) ->
+                w_norow (f s) <> Some true /\ (crit (w_pc (f s)) = true -> w_locked (f s) = true))) ->
+  Pg (upd_w g w f) w.
+Proof. unfold Pg, upd_w; simpl. apply Pw_upd. Qed.
+Ltac pg_side := let s0 := fresh "s0" in let H0 := fresh "H0" in
+  intros s0 H0; simpl; split; [reflexivity|]; intros; split; simpl; auto; try discriminate; try congruence.
+
+Lemma Pg_fail_abort g w e : Pg g w -> Pg (fail_abort g w e) w.
+Proof. intros H. unfold fail_abort. apply Pg_upd; [unfold Pg, abort; simpl; apply Pw_clear; auto|pg_side]. Qed.
+Lemma Pg_fail_soft g w e : Pg g w -> Pg (fail_soft g w e) w.
+Proof. intros H. unfold fail_soft. apply Pg_upd; auto; pg_side. Qed.
+Lemma Pg_blocked g w h l : Pg g w -> Pg (blocked g w h l) w.
+Proof.
+  intros H. unfold blocked. destruct (reaches _ _ _ _).
+  - apply (Pg_same (fail_abort g w EDeadlock)); [reflexivity|apply Pg_fail_abort; auto].
+  - apply (Pg_same (upd_w g w (fun s => wset_wait s (Some h)))); [reflexivity|]. apply Pg_upd; auto; pg_side.
+Qed.
+Lemma Pg_bal_done_locked g w o r : Pg g w -> Pg (bal_done g w o r true) w.
+Proof.
+  intros H. unfold bal_done.
+  assert (H1 : Pg (upd_w g w (fun s => wset_read s r true)) w) by (apply Pg_upd; auto; pg_side).
+  brk; try (apply Pg_fail_soft; auto); apply Pg_upd; auto;
+    intros s0 H0; simpl in H0; rewrite nth_upd_same in H0; destruct (nth_error (g_ws g) w) as [s|]; simpl in H0; inversion H0; subst s0;
+    simpl; (split; [reflexivity|]); intros; split; try discriminate; auto.
+Qed.
+Lemma Pg_vol_loop ks : forall g w i, (forall s, nth_error (g_ws g) w = Some s -> w_pc s = PVol) -> Pg g w -> Pg (vol_loop g w ks i) w.
+Proof.
+  induction ks as [|[k d] rest IH]; simpl; intros g w i Hpc HP.
+  - apply (Pg_same (upd_w g w (fun s => wset_pc (wset_volk s 0%nat) PTx))); [reflexivity|].
+    apply Pg_upd; auto. intros s0 H0. simpl. split; [reflexivity|]. intros a Ha Hn Hc. split; auto. intros _. apply Hc. rewrite (Hpc s0 H0). reflexivity.
+  - brk; try (apply IH; [exact Hpc|apply (Pg_same g); auto; reflexivity]).
+    apply Pg_blocked. apply Pg_upd; auto; pg_side.
+Qed.
+
+Ltac pg_step G w Hs Pc :=
+  let s0 := fresh "s0" in let H0 := fresh "H0" in
+  apply Pg_ev; apply Pg_upd;
+  [ apply (Pg_same G); [reflexivity|auto]
+  | intros s0 H0; change (nth_error (g_ws G) w = Some s0) in H0; rewrite Hs in H0; inversion H0; subst s0; simpl;
+    (split; [reflexivity|]); intros; split; auto; intros _; apply Pc; reflexivity ].
+
+Lemma nth_in_ops g w s : nth_error (g_ws g) w = Some s -> In (w_op s) (map w_op (g_ws g)).
+Proof. intros H. apply in_map. eapply nth_error_In; eauto. Qed.
+
+Lemma Pg_own g w : Eg g -> Pg g w -> Pg (step g w) w.
+Proof.
+  intros HE HP. unfold step. destruct (get_w g w) as [s|] eqn:Hs; [|exact HP]. unfold get_w in Hs.
+  destruct (allowance (w_op s)) as [a|] eqn:Ha.
+  2:{ (* an unbounded request: nothing to show, its operation never changes *)
+      intros s' a' Hn Ha'. exfalso.
+      assert (Ho : option_map w_op (nth_error (g_ws (step g w)) w) = option_map w_op (nth_error (g_ws g) w)).
+      { rewrite <- !nth_error_map. rewrite (step_oev g w). reflexivity. }
+      unfold step in Ho. rewrite Hs in Ho. unfold get_w in Ho. rewrite Hs in Ho. rewrite Hn in Ho. simpl in Ho. inversion Ho. congruence. }
+  destruct (HP s a Hs Ha) as [Pn Pc].
+  destruct (w_pc s) eqn:Hpc.
+  - unfold do_ik. apply Pg_ev.
+    brk; try (apply Pg_fail_soft; auto); apply Pg_upd; auto; intros s0 H0; rewrite Hs in H0; inversion H0; subst s0; simpl;
+      (split; [reflexivity|]); intros; split; auto; try discriminate.
+    intros Hc. apply after_ik_crit in Hc. congruence.
+  - unfold do_rev. brk; try (apply (Pg_same (fail_soft g w ENotFound)); [reflexivity|apply Pg_fail_soft; auto]);
+      try (apply (Pg_same (fail_soft g w EAlreadyReverted)); [reflexivity|apply Pg_fail_soft; auto]);
+      try (apply Pg_blocked; auto).
+    + apply (Pg_same (upd_w g w (fun s => wset_pc s PBal))); [reflexivity|]. apply Pg_upd; auto; pg_side.
+    + eapply Pg_same; [|apply (Pg_upd g w (fun s => wset_pc s PBal)); auto; pg_side]. reflexivity.
+  - (* GetBalances: the row exists and the snapshot saw it *)
+    destruct (HE (w_op s) a (nth_in_ops g w s Hs) Ha) as [x [Hx Hnew]].
+    unfold do_bal. rewrite Hx.
+    assert (Hnr : match w_norow s with Some b => b | None => v_new x end = false).
+    { destruct (w_norow s) as [[|]|]; auto. congruence. }
+    rewrite Hnr, Hnew.
+    assert (Hwait : forall h, Pg (blocked (upd_w g w (fun s0 => wset_norow s0 (Some false))) w h LBal) w).
+    { intros h. apply Pg_blocked. apply Pg_upd; auto; pg_side. }
+    destruct (v_lock x) as [h|].
+    + destruct (v_upd x); apply Hwait.
+    + apply Pg_ev. apply Pg_bal_done_locked. apply (Pg_same g); auto; reflexivity.
+  - unfold do_vol. apply Pg_vol_loop; auto. intros s0 H0. congruence.
+  - unfold do_tx. destruct (my_pending_tx g w).
+    + brk; try (apply Pg_blocked; auto); try (apply Pg_ev; apply Pg_fail_abort; auto); pg_step g w Hs Pc.
+    + set (row := {| t_id := g_ntx g; t_ref := tx_ref (w_op s); t_own := Some w; t_rev := false; t_revlock := None; t_pend := true |}).
+      set (g1 := upd_w (set_ntx (set_txs g (g_txs g ++ [row])) (g_ntx g + 1)) w (fun s0 => wset_txid s0 (Some (g_ntx g)))).
+      assert (H1 : Pg g1 w) by (unfold g1; apply Pg_upd; [apply (Pg_same g); auto; reflexivity|pg_side]).
+      assert (Hs1 : nth_error (g_ws g1) w = Some (wset_txid s (Some (g_ntx g)))) by (unfold g1; simpl; rewrite nth_upd_same, Hs; reflexivity).
+      brk; try (apply Pg_blocked; auto); try (apply Pg_ev; apply Pg_fail_abort; auto); pg_step g1 w Hs1 Pc.
+  - unfold do_adv. brk; try (apply Pg_blocked; auto); pg_step g w Hs Pc.
+  - unfold do_log. destruct (g_hash g && negb (owner_is (g_adv g) w)); [exact HP|].
+    destruct (my_pending_log g w).
+    + brk; try (apply Pg_blocked; auto); try (apply Pg_ev; apply Pg_fail_abort; auto); pg_step g w Hs Pc.
+    + set (row := {| l_id := g_nlog g; l_ik := o_ik (w_op s); l_inh := o_inh (w_op s); l_own := Some w;
+                     l_tx := match w_txid s with Some i => i | None => 0 end; l_pend := true |}).
+      set (g1 := upd_w (set_nlog (set_logs g (g_logs g ++ [row])) (g_nlog g + 1)) w (fun s0 => wset_logid s0 (Some (g_nlog g)))).
+      assert (H1 : Pg g1 w) by (unfold g1; apply Pg_upd; [apply (Pg_same g); auto; reflexivity|pg_side]).
+      assert (Hs1 : nth_error (g_ws g1) w = Some (wset_logid s (Some (g_nlog g)))) by (unfold g1; simpl; rewrite nth_upd_same, Hs; reflexivity).
+      brk; try (apply Pg_blocked; auto); try (apply Pg_ev; apply Pg_fail_abort; auto); pg_step g1 w Hs1 Pc.
+  - unfold do_commit. unfold Pg; simpl. apply Pw_upd; [apply Pw_clear; auto|pg_side].
+  - unfold do_rollback. unfold Pg. destruct (w_err s) as [[]|]; try destruct (w_retry s); simpl;
+      (apply Pw_upd; [apply Pw_clear; auto|]); intros s0 H0; simpl; (split; [reflexivity|]); intros a0 Ha0 _ _; split; simpl; try discriminate;
+      intros Hc; apply start_pc_crit in Hc; congruence.
+  - unfold do_fetch. unfold Pg. brk; simpl; apply Pw_upd; auto; pg_side.
+  - exact HP.
+Qed.
